@@ -6,43 +6,49 @@ import UrcuVerif.Machine.Upd
 
 Abstract-algorithm level ("L2") executable model, self-contained (core Lean only).  One `State` is the
 state of ONE process.  The label `forkChild t` maps the state of the forking process to the initial
-state of the child *as a function of the parent state*: same memory (queues, flags, futexes, locks,
+state of the child *as a function of the parent state* (`childOf`): same memory (queues, flags, locks,
 registry, lists, pointers – exactly as the other threads left them), only thread `t` survives, every
 other thread's program counter is erased (`gone`); what lived only in an erased thread's stack
-(`batch`, `cur`) is unreachable in the child.  `forkParent t` is the same instant seen from the
-parent.  `Reach` is closed under both, so it contains the states of every process of the process
-tree (children may fork again).
+(`batch`) is unreachable in the child.  `forkParent t` is the same instant seen from the parent
+(`parentOf`).  `Reach` is closed under both, so it contains the states of every process of the
+process tree (children may fork again).
 
-* application threads `t < c.n` (`Th.u t`, program counter `upc t`) and helper threads (`Th.h h`,
-  running `call_rcu_thread`: `hpc h`; while a helper executes a callback (`run`) the callback may
-  call `call_rcu()` again – `hChain` + `hWake`, it lands on the helper's own queue because
-  `URCU_TLS(thread_call_rcu_data)` of a helper thread is its own `crdp`);
-* helpers `h < nextH` with `queue` (the wfcqueue `crdp->cbs` as an abstract FIFO, enqueue atomic at
-  the xchg: C10), `batch` (spliced-out private list), `cur` (callback being run), the flag bits
-  `rt / pause / paused / stopped` of `crdp->flags`, `futex`; `list` = `call_rcu_data_list` in C order
-  (`cds_list_add` = cons), `dflt`, per-CPU array `percpu` (+ `arr` = allocated), per-thread pointer
-  `thr`, `mutex` = `call_rcu_mutex`;
-* reader registry of the flavor: `registry` (thread ids, `cds_list_add` = cons), `rgl` =
-  `rcu_registry_lock`, `gpl` = `rcu_gp_lock`; a grace period takes `gpl`, then `rgl` (first
-  acquisition: `waitL` := registered threads inside a read-side section), may drop/retake `rgl` while
-  waiting and returns (releases `gpl`) only when every thread of `waitL` has left its section
-  (`GpSpec` abstraction of C01; `gpSkip` = the caller was served by another thread's grace period
-  through the wait queue and takes no lock);
-* `wake_call_rcu_thread(h)` = one step `wake` (`wakeS`: a non-RT helper whose futex is -1 gets 0 and is
-  made runnable if it sleeps; the trace checker feeds it at the store of 0, or at the load when no
-  store follows);
-* `rcu_barrier()` = markers (callbacks with `bar id = some b`) queued on every helper of `list` under
-  the mutex; `bpend b` = markers of barrier `b` not yet run (`barrier_count` = its length).
-* ghost: `reg`, `loc` (where a callback is), `holder`, `invN` (invocations in the whole history of
-  this process incl. its ancestors up to the fork), `atFork` (queued at the last fork), `invSince`
-  (invocations since the last fork, in this process), `win` (thread inside the fork window),
-  `child` (between fork and the end of `after_fork_child`), `gen`.
+Granularity.  The pause / resume handshake is modelled flag access by flag access:
+`call_rcu_before_fork` = lock `call_rcu_mutex`; for each helper of `call_rcu_data_list`: set `PAUSE`
+(+ wake); for each helper: wait until `PAUSED`;  helper pause branch = load flags at the loop top,
+`rcu_unregister_thread()`, set `PAUSED`, spin while `PAUSE`, clear `PAUSED`, `rcu_register_thread()`;
+`call_rcu_after_fork_parent` = for each helper clear `PAUSE`; for each helper wait until `PAUSED` is
+clear; unlock.  `call_rcu_after_fork_child` = unlock; (nothing if the list is empty) create a fresh
+default helper, reset the per-CPU array and the per-thread pointer; for every other `call_rcu_data`
+of the list: mark `STOPPED`, `_call_rcu_data_free(·, 0)` = splice its queue onto the default
+helper's, unlink, free – no `pthread_join` (`afcDispose`, one atomic step per `call_rcu_data`: in the
+child nobody but the forking thread touches these objects).
+Everything else is coarse: operations that only touch data protected by a mutex are one atomic step
+guarded by "mutex free" (`create`, `setCpu`, `createDflt`; registration = atomic block under
+`rcu_registry_lock`); `call_rcu()` = `enq` at the enqueue xchg (C10, C03); a grace period =
+`gpBegin` (takes `rcu_gp_lock`, `waitL` := registered application threads inside a read-side section)
+… `gpEnd` (only when every thread of `waitL` has left its section: `GpSpec` abstraction of C01;
+`hGpSkip` = served by another thread's grace period through the wait queue, no lock);
+`rcu_barrier()` = one marker callback per helper of the list, queued under the mutex
+(`bpend b` = markers of barrier `b` not yet run).  Futex sleep/wake-up of helpers is abstracted
+(`hWait` may always continue: C02/C03 prove the handshake; the tie's deadlock detector checks it on
+every run).  The event-level transliteration of the C text in `Driver/Fork.lean` ("L1") must match
+the event stream of the real code exactly inside the handlers and the pause branch and replays the
+labels below on `step`.
 
-Not modelled (see Props/C16): `call_rcu_data_free()` / helper STOP in a running process (C03), the
-lfht work-queue hook (separate model `Fork/Wq.lean`), urcu-bp (separate model `Fork/Bp.lean`).
-Documented preconditions are guards: `bfCall` (handlers are called outside read-side sections, by an
-application thread), `forkParent/forkChild` (`ForkPre`: every other application thread is outside
-liburcu and not registered as a reader).
+* application threads `t < c.n` (`upc t`), helper threads `h < nextH` (`hpc h`, running
+  `call_rcu_thread`; a running callback may call `call_rcu()` again: `hChain`, it lands on the
+  helper's own queue because `URCU_TLS(thread_call_rcu_data)` of a helper thread is its own `crdp`);
+* ghost: `reg`, `loc` (where a callback is), `invN` (invocations in the history of this process incl.
+  its ancestors before the fork), `atFork` (queued at the last fork), `invSince` (invocations since
+  the last fork, in this process), `win` (thread inside the fork window), `child` (between fork and
+  the end of `after_fork_child`), `gen`.
+
+Not modelled here: `call_rcu_data_free()` / helper STOP in a running process (C03; concurrent with
+`call_rcu_before_fork` it can block the latter, see Props/C16), the lfht work-queue hook
+(`Fork/Wq.lean`), urcu-bp (`Fork/Bp.lean`).  Documented preconditions are guards: `bfLock` (the
+handlers are called outside read-side sections, by an application thread), `forkParent/forkChild`
+(`ForkPre`: every other application thread is outside liburcu and not registered as a reader).
 -/
 namespace UrcuVerif.Fork
 
@@ -54,45 +60,28 @@ structure Cfg where
 inductive Th | u (t : Nat) | h (h : Nat)
   deriving DecidableEq, Repr
 
-inductive Loc | none | pend | queue (h : Nat) | batch (h : Nat) | run (h : Nat) | done
+inductive Loc | none | queue (h : Nat) | batch (h : Nat) | done
   deriving DecidableEq, Repr
 
 inductive Via | thr | cpu (c : Nat) | dflt
   deriving DecidableEq, Repr
 
-inductive Op
-  | create (rt : Bool)                       -- create_call_rcu_data(flags, _)
-  | setCpu (cpu : Nat) (ho : Option Nat)     -- set_cpu_call_rcu_data(cpu, crdp)
-  deriving DecidableEq, Repr
-
 /-- application-level program counter of a thread -/
 inductive UPc
   | gone | idle
-  | sel (id : Nat) | gdLock (id : Nat) | gdCreate (id : Nat) | gdUnlock (id : Nat)
-  | enq (id h : Nat) | crWk (h : Nat) | crRet
-  | opLock (op : Op) | opDo (op : Op) | opUnlock
-  | regLock | regDo | unregLock | unregDo
-  | g0 | g1 | g2 | g3
-  | barLock (b : Nat) | barLoop (b : Nat) (rem : List Nat) | barWk (b h : Nat) (rem : List Nat) | barWait (b : Nat)
-  | bfLock | bfPause (rem : List Nat) | bfWk (h : Nat) (rem : List Nat) | bfWait (rem : List Nat) | atFork
+  | gp                                              -- inside synchronize_rcu(), holds rcu_gp_lock
+  | barLoop (b : Nat) (rem : List Nat) | barWait (b : Nat)
+  | bfPause (rem : List Nat) | bfWait (rem : List Nat) | atFork
   | afpClr (rem : List Nat) | afpWait (rem : List Nat)
-  | afcUnlock | afcChk | afcGdLock | afcGdCreate | afcGdUnlock | afcReset
-  | afcLoop (rem : List Nat) | afcStop (h : Nat) (rem : List Nat) | afcFLock (h : Nat) (rem : List Nat)
-  | afcFChk (h : Nat) (rem : List Nat) | afcFLock2 (h : Nat) (rem : List Nat) | afcSplice (h : Nat) (rem : List Nat)
-  | afcWk (d h : Nat) (rem : List Nat) | afcDel (h : Nat) (rem : List Nat)
+  | afcUnlock | afcCreate | afcLoop (rem : List Nat)
   deriving DecidableEq, Repr
 
 /-- program counter of `call_rcu_thread` -/
 inductive HPc
   | none | gone
-  | start | startReg | dec0
-  | top | unreg1 | unreg2 | setPaused | spin | clrPaused | rereg1 | rereg2
-  | splice | g0 | g1 | g2 | g3 | inv | run | runWk | stopchk | emptychk
-  | waitLd | waitSys | asleep | pollW | dec | pollN
-  deriving DecidableEq, Repr
-
-/-- outcome of `futex(FUTEX_WAIT)` chosen by the environment -/
-inductive FOut | sleep | eagain | eintr | spurious
+  | start                                           -- thread created, not yet registered
+  | top | unreg | setPaused | spin | clrPaused | rereg
+  | splice | g0 | g1 | inv | wait
   deriving DecidableEq, Repr
 
 structure State where
@@ -102,13 +91,10 @@ structure State where
   hpc     : Nat → HPc
   queue   : Nat → List Nat
   batch   : Nat → List Nat
-  cur     : Nat → Option Nat
-  rt      : Nat → Bool
   pause   : Nat → Bool
   paused  : Nat → Bool
   stopped : Nat → Bool
   freed   : Nat → Bool
-  futex   : Nat → Int
   nextH   : Nat
   list    : List Nat
   dflt    : Option Nat
@@ -116,14 +102,12 @@ structure State where
   percpu  : Nat → Option Nat
   mutex   : Option Nat
   gpl     : Option Th
-  rgl     : Option Th
   registry : List Th
   waitL   : List Nat
   bpend   : Nat → List Nat
   -- ghost
   reg     : Nat → Bool
   loc     : Nat → Loc
-  holder  : Nat → Nat
   invN    : Nat → Nat
   bar     : Nat → Option Nat
   atFork  : Nat → Bool
@@ -134,60 +118,38 @@ structure State where
 
 def init : State :=
   { upc := fun _ => .idle, nest := fun _ => 0, thr := fun _ => none, hpc := fun _ => .none,
-    queue := fun _ => [], batch := fun _ => [], cur := fun _ => none, rt := fun _ => false,
-    pause := fun _ => false, paused := fun _ => false, stopped := fun _ => false, freed := fun _ => false,
-    futex := fun _ => 0, nextH := 0, list := [], dflt := none, arr := false, percpu := fun _ => none,
-    mutex := none, gpl := none, rgl := none, registry := [], waitL := [], bpend := fun _ => [],
-    reg := fun _ => false, loc := fun _ => .none, holder := fun _ => 0, invN := fun _ => 0, bar := fun _ => none,
+    queue := fun _ => [], batch := fun _ => [], pause := fun _ => false, paused := fun _ => false,
+    stopped := fun _ => false, freed := fun _ => false, nextH := 0, list := [], dflt := none, arr := false,
+    percpu := fun _ => none, mutex := none, gpl := none, registry := [], waitL := [], bpend := fun _ => [],
+    reg := fun _ => false, loc := fun _ => .none, invN := fun _ => 0, bar := fun _ => none,
     atFork := fun _ => false, invSince := fun _ => 0, win := none, child := false, gen := 0 }
 
 inductive Label
-  -- read-side sections, registration, synchronize_rcu() of any thread
-  | rlock (t : Nat) | runlock (t : Nat)
-  | regCall (t : Nat) | regLock (t : Nat) | regDone (t : Nat)
-  | unregCall (t : Nat) | unregLock (t : Nat) | unregDone (t : Nat)
-  | syncCall (t : Nat) | gpLock (t : Nat) | gpSkip (t : Nat) | rgLock (t : Nat) | rgUnlock (t : Nat) | gpUnlock (t : Nat)
-  -- call_rcu()
-  | crCall (t id : Nat) | crSel (t : Nat) (v : Via) | crNoSel (t : Nat) | gdLock (t : Nat) | gdCreate (t : Nat) | gdUnlock (t : Nat)
-  | crEnq (t : Nat) | wake (t : Nat) | crRet (t : Nat)
-  -- create_call_rcu_data / set_cpu_call_rcu_data / set_thread_call_rcu_data
-  | opCall (t : Nat) (op : Op) | opLock (t : Nat) | opDo (t : Nat) | opUnlock (t : Nat) | setThr (t : Nat) (ho : Option Nat)
+  -- read-side sections, registration, synchronize_rcu() of application threads
+  | spawn (t : Nat) | rlock (t : Nat) | runlock (t : Nat) | register (t : Nat) | unregister (t : Nat) | gpBegin (t : Nat) | gpEnd (t : Nat)
+  -- call_rcu() and helper management
+  | enq (t id : Nat) (v : Via) | createDflt (t : Nat) | create (t : Nat) | setCpu (t cpu : Nat) (ho : Option Nat)
+  | setThr (t : Nat) (ho : Option Nat)
   -- rcu_barrier()
-  | barCall (t b : Nat) | barLock (t : Nat) | barEnq (t id : Nat) | barUnlock (t : Nat) | barRet (t : Nat)
+  | barCall (t b : Nat) | barEnq (t id : Nat) | barUnlock (t : Nat) | barRet (t : Nat)
   -- call_rcu_before_fork()
-  | bfCall (t : Nat) | bfLock (t : Nat) | bfPause (t : Nat) | bfPauseDone (t : Nat) | bfWait (t : Nat) | bfRet (t : Nat)
+  | bfLock (t : Nat) | bfPause (t : Nat) | bfPauseDone (t : Nat) | bfWait (t : Nat) | bfRet (t : Nat)
   -- fork()
   | forkParent (t : Nat) | forkChild (t : Nat)
   -- call_rcu_after_fork_parent()
   | afpClr (t : Nat) | afpClrDone (t : Nat) | afpWait (t : Nat) | afpUnlock (t : Nat)
   -- call_rcu_after_fork_child()
-  | afcUnlock (t : Nat) | afcChk (t : Nat) | afcGdLock (t : Nat) | afcGdCreate (t : Nat) | afcGdUnlock (t : Nat)
-  | afcReset (t : Nat) | afcNext (t : Nat) | afcStop (t : Nat) | afcFLock (t : Nat) | afcFChk (t : Nat)
-  | afcFLock2 (t : Nat) | afcSplice (t : Nat) | afcDel (t : Nat) | afcDone (t : Nat)
+  | afcUnlock (t : Nat) | afcNone (t : Nat) | afcCreate (t : Nat) | afcSkip (t : Nat) | afcDispose (t : Nat) | afcDone (t : Nat)
   -- helper thread
-  | hStart (h : Nat) | hStartDone (h : Nat) | hDec0 (h : Nat)
-  | hTop (h : Nat) | hUnreg1 (h : Nat) | hUnreg2 (h : Nat) | hSetPaused (h : Nat) | hSpinExit (h : Nat)
-  | hClrPaused (h : Nat) | hRereg1 (h : Nat) | hRereg2 (h : Nat)
-  | hSplice (h : Nat) | hGpLock (h : Nat) | hGpSkip (h : Nat) | hRgLock (h : Nat) | hRgUnlock (h : Nat) | hGpUnlock (h : Nat)
-  | hRunBegin (h cb : Nat) | hChain (h id : Nat) | hWake (h : Nat) | hRunEnd (h : Nat) | hInvDone (h : Nat) | hStopChk (h : Nat) | hEmptyChk (h : Nat)
-  | hWaitLd (h : Nat) | hWaitSys (h : Nat) (o : FOut) | hSpurious (h : Nat) | hPollW (h : Nat) | hDec (h : Nat) | hPollN (h : Nat)
+  | hStart (h : Nat) | hTop (h : Nat) | hUnreg (h : Nat) | hSetPaused (h : Nat) | hSpinExit (h : Nat)
+  | hClrPaused (h : Nat) | hRereg (h : Nat)
+  | hSplice (h : Nat) | hGpBegin (h : Nat) | hGpSkip (h : Nat) | hGpEnd (h : Nat)
+  | hInvoke (h cb : Nat) | hChain (h id : Nat) | hInvDone (h : Nat) | hWait (h : Nat)
   deriving DecidableEq, Repr
 
 /-- `call_rcu_data_init()`: new helper `nextH`, first in `call_rcu_data_list`, thread spawned -/
-def newHelper (s : State) (rt : Bool) : State :=
-  { s with hpc := upd s.hpc s.nextH .start, rt := upd s.rt s.nextH rt, list := s.nextH :: s.list,
-           nextH := s.nextH + 1 }
-
-/-- `wake_call_rcu_thread(h)` as one step (the store of 0 and the FUTEX_WAKE; a helper that is not
-RT and whose futex is -1 gets 0 and, if it sleeps, is made runnable) -/
-def wakes (s : State) (h : Nat) : Prop := s.rt h = false ∧ s.futex h = -1
-
-instance (s h) : Decidable (wakes s h) := by unfold wakes; infer_instance
-
-def wakeS (s : State) (h : Nat) (t : Nat) (pc : UPc) : State :=
-  { s with upc := upd s.upc t pc,
-           futex := if wakes s h then upd s.futex h 0 else s.futex,
-           hpc := if wakes s h ∧ s.hpc h = .asleep then upd s.hpc h .waitLd else s.hpc }
+def newHelper (s : State) : State :=
+  { s with hpc := upd s.hpc s.nextH .start, list := s.nextH :: s.list, nextH := s.nextH + 1 }
 
 def relocate (loc : Nat → Loc) (frm to : Loc) : Nat → Loc :=
   fun id => if loc id = frm then to else loc id
@@ -209,14 +171,15 @@ def PtrOk (s : State) : Option Nat → Prop
 
 instance (s ho) : Decidable (PtrOk s ho) := by unfold PtrOk; cases ho <;> infer_instance
 
-def OpOk (s : State) : Op → Prop
-  | .setCpu _ ho => PtrOk s ho
-  | _ => True
-
-instance (s op) : Decidable (OpOk s op) := by unfold OpOk; cases op <;> infer_instance
+/-- the helper `call_rcu()` of thread `t` selects (`get_call_rcu_data()`): per-thread, else per-CPU,
+else default -/
+def sel (s : State) (t : Nat) : Via → Option Nat
+  | .thr => s.thr t
+  | .cpu cpu => if s.thr t = none ∧ s.arr = true then s.percpu cpu else none
+  | .dflt => if s.thr t = none then s.dflt else none
 
 /-- application threads a grace period started by `me` has to wait for: registered and inside a
-read-side section (helper threads only take sections inside `call_rcu()`, folded into `hChain`) -/
+read-side section -/
 def waitSet (s : State) (me : Option Nat) : List Nat :=
   s.registry.filterMap (fun r => match r with
     | .u u => if some u ≠ me ∧ 0 < s.nest u then some u else none
@@ -230,7 +193,7 @@ def isQueue : Loc → Bool
 def childOf (s : State) (t : Nat) : State :=
   { s with upc := fun u => if u = t then .afcUnlock else .gone,
            hpc := fun h => if s.hpc h = .none then .none else .gone,
-           batch := fun _ => [], cur := fun _ => none,
+           batch := fun _ => [],
            atFork := fun id => isQueue (s.loc id), invSince := fun _ => 0,
            child := true, gen := s.gen + 1 }
 
@@ -241,147 +204,64 @@ def parentOf (s : State) (t : Nat) : State :=
 
 /-- One step; `none` = not enabled. -/
 def step (c : Cfg) (s : State) : Label → Option State
-  -- ---------------------------------------------------------------- readers, registration
+  -- ---------------------------------------------------------------- readers, registration, grace periods
+  | .spawn t =>
+    -- a new application thread (pthread_create by the application; in a child: with an id the erased
+    -- threads no longer use): fresh thread-local storage
+    if t < c.n ∧ s.upc t = .gone ∧ s.child = false ∧ Th.u t ∉ s.registry then
+      some { s with upc := upd s.upc t .idle, thr := upd s.thr t none, nest := upd s.nest t 0 }
+    else none
   | .rlock t =>
     if t < c.n ∧ s.upc t = .idle then some { s with nest := upd s.nest t (s.nest t + 1) } else none
   | .runlock t =>
     if t < c.n ∧ s.upc t = .idle ∧ 0 < s.nest t then
-      some { s with nest := upd s.nest t (s.nest t - 1), waitL := if s.nest t = 1 then s.waitL.erase t else s.waitL }
+      some { s with nest := upd s.nest t (s.nest t - 1), waitL := if s.nest t = 1 then s.waitL.filter (· ≠ t) else s.waitL }
     else none
-  | .regCall t =>
-    if t < c.n ∧ s.upc t = .idle ∧ Th.u t ∉ s.registry then some { s with upc := upd s.upc t .regLock } else none
-  | .regLock t =>
-    if s.upc t = .regLock ∧ s.rgl = none then some { s with upc := upd s.upc t .regDo, rgl := some (.u t) } else none
-  | .regDone t =>
-    if s.upc t = .regDo ∧ s.rgl = some (.u t) then
-      some { s with upc := upd s.upc t .idle, rgl := none, registry := .u t :: s.registry }
+  | .register t =>
+    if t < c.n ∧ s.upc t = .idle ∧ Th.u t ∉ s.registry ∧ s.nest t = 0 then some { s with registry := .u t :: s.registry } else none
+  | .unregister t =>
+    if t < c.n ∧ s.upc t = .idle ∧ Th.u t ∈ s.registry ∧ s.nest t = 0 then
+      some { s with registry := s.registry.filter (· ≠ .u t) }
     else none
-  | .unregCall t =>
-    if t < c.n ∧ s.upc t = .idle ∧ Th.u t ∈ s.registry ∧ s.nest t = 0 then some { s with upc := upd s.upc t .unregLock } else none
-  | .unregLock t =>
-    if s.upc t = .unregLock ∧ s.rgl = none then some { s with upc := upd s.upc t .unregDo, rgl := some (.u t) } else none
-  | .unregDone t =>
-    if s.upc t = .unregDo ∧ s.rgl = some (.u t) then
-      some { s with upc := upd s.upc t .idle, rgl := none, registry := s.registry.filter (· ≠ .u t) }
+  | .gpBegin t =>
+    if t < c.n ∧ s.upc t = .idle ∧ s.nest t = 0 ∧ s.gpl = none then
+      some { s with upc := upd s.upc t .gp, gpl := some (.u t), waitL := waitSet s (some t) }
     else none
-  -- ---------------------------------------------------------------- synchronize_rcu()
-  | .syncCall t =>
-    if t < c.n ∧ s.upc t = .idle ∧ s.nest t = 0 then some { s with upc := upd s.upc t .g0 } else none
-  | .gpLock t =>
-    if s.upc t = .g0 ∧ s.gpl = none then some { s with upc := upd s.upc t .g1, gpl := some (.u t) } else none
-  | .gpSkip t =>
-    if s.upc t = .g0 then some { s with upc := upd s.upc t .idle } else none
-  | .rgLock t =>
-    if s.rgl = none then
-      match s.upc t with
-      | .g1 => some { s with upc := upd s.upc t .g2, rgl := some (.u t), waitL := waitSet s (some t) }
-      | .g3 => some { s with upc := upd s.upc t .g2, rgl := some (.u t) }
-      | _ => none
-    else none
-  | .rgUnlock t =>
-    if s.upc t = .g2 ∧ s.rgl = some (.u t) then some { s with upc := upd s.upc t .g3, rgl := none } else none
-  | .gpUnlock t =>
-    if s.upc t = .g3 ∧ s.gpl = some (.u t) ∧ s.waitL = [] then some { s with upc := upd s.upc t .idle, gpl := none } else none
-  -- ---------------------------------------------------------------- call_rcu()
-  | .crCall t id =>
-    if t < c.n ∧ s.upc t = .idle ∧ Th.u t ∈ s.registry ∧ s.reg id = false then
-      some { s with upc := upd s.upc t (.sel id), nest := upd s.nest t (s.nest t + 1), reg := upd s.reg id true,
-                    loc := upd s.loc id .pend, holder := upd s.holder id t }
-    else none
-  | .crSel t v =>
-    match s.upc t with
-    | .sel id =>
-      match v with
-      | .thr => match s.thr t with
-        | some h => some { s with upc := upd s.upc t (.enq id h) }
-        | none => none
-      | .cpu cpu => match s.thr t, s.percpu cpu with
-        | none, some h => if s.arr = true then some { s with upc := upd s.upc t (.enq id h) } else none
-        | _, _ => none
-      | .dflt => match s.thr t, s.dflt with
-        | none, some d => some { s with upc := upd s.upc t (.enq id d) }
-        | _, _ => none
-    | _ => none
-  | .crNoSel t =>
-    match s.upc t, s.thr t, s.dflt with
-    | .sel id, none, none => some { s with upc := upd s.upc t (.gdLock id) }
-    | _, _, _ => none
-  | .gdLock t =>
-    match s.upc t with
-    | .gdLock id => if s.mutex = none then some { s with upc := upd s.upc t (.gdCreate id), mutex := some t } else none
-    | _ => none
-  | .gdCreate t =>
-    match s.upc t with
-    | .gdCreate id =>
-      match s.dflt with
-      | some _ => some { s with upc := upd s.upc t (.gdUnlock id) }
-      | none =>
-        let s1 := newHelper s false
-        some { s1 with upc := upd s1.upc t (.gdUnlock id), dflt := some s.nextH }
-    | _ => none
-  | .gdUnlock t =>
-    match s.upc t, s.dflt with
-    | .gdUnlock id, some d =>
-      if s.mutex = some t then some { s with upc := upd s.upc t (.enq id d), mutex := none } else none
-    | _, _ => none
-  | .crEnq t =>
-    match s.upc t with
-    | .enq id h =>
-      some { s with upc := upd s.upc t (.crWk h), queue := upd s.queue h (s.queue h ++ [id]),
-                    loc := upd s.loc id (.queue h) }
-    | _ => none
-  | .wake t =>
-    match s.upc t with
-    | .crWk h => some (wakeS s h t .crRet)
-    | .barWk b h rem => some (wakeS s h t (.barLoop b rem))
-    | .bfWk h rem => some (wakeS s h t (.bfPause rem))
-    | .afcWk d h rem => some (wakeS s d t (.afcDel h rem))
-    | _ => none
-  | .crRet t =>
-    if s.upc t = .crRet ∧ 0 < s.nest t then
-      some { s with upc := upd s.upc t .idle, nest := upd s.nest t (s.nest t - 1),
-                    waitL := if s.nest t = 1 then s.waitL.erase t else s.waitL }
-    else none
-  -- ---------------------------------------------------------------- operations under the mutex
-  | .opCall t op =>
-    if t < c.n ∧ s.upc t = .idle ∧ OpOk s op then
-      some { s with upc := upd s.upc t (.opLock op) }
-    else none
-  | .opLock t =>
-    match s.upc t with
-    | .opLock op => if s.mutex = none then some { s with upc := upd s.upc t (.opDo op), mutex := some t } else none
-    | _ => none
-  | .opDo t =>
-    match s.upc t with
-    | .opDo (.create rt) =>
-      let s1 := newHelper s rt
-      some { s1 with upc := upd s1.upc t .opUnlock }
-    | .opDo (.setCpu cpu ho) =>
-      if s.percpu cpu ≠ none ∧ ho ≠ none then some { s with arr := true, upc := upd s.upc t .opUnlock }
-      else if PtrOk s ho then
-        some { s with arr := true, upc := upd s.upc t .opUnlock, percpu := upd s.percpu cpu ho }
+  | .gpEnd t =>
+    if s.upc t = .gp ∧ s.gpl = some (.u t) ∧ s.waitL = [] then some { s with upc := upd s.upc t .idle, gpl := none } else none
+  -- ---------------------------------------------------------------- call_rcu(), helper management
+  | .enq t id v =>
+    match sel s t v with
+    | some h =>
+      if t < c.n ∧ s.upc t = .idle ∧ Th.u t ∈ s.registry ∧ s.reg id = false then
+        some { s with reg := upd s.reg id true, loc := upd s.loc id (.queue h), queue := upd s.queue h (s.queue h ++ [id]) }
       else none
-    | _ => none
-  | .opUnlock t =>
-    if s.upc t = .opUnlock ∧ s.mutex = some t then some { s with upc := upd s.upc t .idle, mutex := none } else none
+    | none => none
+  | .createDflt t =>
+    -- get_default_call_rcu_data() when there is no default helper yet (under the mutex)
+    if t < c.n ∧ s.upc t = .idle ∧ s.mutex = none ∧ s.dflt = none then
+      some { newHelper s with dflt := some s.nextH }
+    else none
+  | .create t =>
+    if t < c.n ∧ s.upc t = .idle ∧ s.mutex = none then some (newHelper s) else none
+  | .setCpu t cpu ho =>
+    if t < c.n ∧ s.upc t = .idle ∧ s.mutex = none ∧ PtrOk s ho ∧ (s.percpu cpu = none ∨ ho = none) then
+      some { s with arr := true, percpu := upd s.percpu cpu ho }
+    else none
   | .setThr t ho =>
     if t < c.n ∧ s.upc t = .idle ∧ PtrOk s ho then some { s with thr := upd s.thr t ho } else none
   -- ---------------------------------------------------------------- rcu_barrier()
   | .barCall t b =>
-    if t < c.n ∧ s.upc t = .idle ∧ s.nest t = 0 ∧ s.bpend b = [] then
-      some { s with upc := upd s.upc t (.barLock b) }
+    if t < c.n ∧ s.upc t = .idle ∧ s.nest t = 0 ∧ s.bpend b = [] ∧ s.mutex = none then
+      some { s with upc := upd s.upc t (.barLoop b s.list), mutex := some t }
     else none
-  | .barLock t =>
-    match s.upc t with
-    | .barLock b => if s.mutex = none then some { s with upc := upd s.upc t (.barLoop b s.list), mutex := some t } else none
-    | _ => none
   | .barEnq t id =>
     match s.upc t with
     | .barLoop b (h :: rem) =>
       if s.reg id = false then
-        some { s with upc := upd s.upc t (.barWk b h rem), reg := upd s.reg id true, bar := upd s.bar id (some b),
-                      loc := upd s.loc id (.queue h), holder := upd s.holder id t,
-                      queue := upd s.queue h (s.queue h ++ [id]), bpend := upd s.bpend b (id :: s.bpend b) }
+        some { s with upc := upd s.upc t (.barLoop b rem), reg := upd s.reg id true, bar := upd s.bar id (some b),
+                      loc := upd s.loc id (.queue h), queue := upd s.queue h (s.queue h ++ [id]),
+                      bpend := upd s.bpend b (id :: s.bpend b) }
       else none
     | _ => none
   | .barUnlock t =>
@@ -393,15 +273,13 @@ def step (c : Cfg) (s : State) : Label → Option State
     | .barWait b => if s.bpend b = [] then some { s with upc := upd s.upc t .idle } else none
     | _ => none
   -- ---------------------------------------------------------------- call_rcu_before_fork()
-  | .bfCall t =>
-    if t < c.n ∧ s.upc t = .idle ∧ s.nest t = 0 then some { s with upc := upd s.upc t .bfLock } else none
   | .bfLock t =>
-    if s.upc t = .bfLock ∧ s.mutex = none then
+    if t < c.n ∧ s.upc t = .idle ∧ s.nest t = 0 ∧ s.mutex = none then
       some { s with upc := upd s.upc t (.bfPause s.list), mutex := some t, win := some t }
     else none
   | .bfPause t =>
     match s.upc t with
-    | .bfPause (h :: rem) => some { s with upc := upd s.upc t (.bfWk h rem), pause := upd s.pause h true }
+    | .bfPause (h :: rem) => some { s with upc := upd s.upc t (.bfPause rem), pause := upd s.pause h true }
     | _ => none
   | .bfPauseDone t =>
     match s.upc t with
@@ -439,182 +317,93 @@ def step (c : Cfg) (s : State) : Label → Option State
     | _ => none
   -- ---------------------------------------------------------------- call_rcu_after_fork_child()
   | .afcUnlock t =>
-    if s.upc t = .afcUnlock ∧ s.mutex = some t then some { s with upc := upd s.upc t .afcChk, mutex := none } else none
-  | .afcChk t =>
-    if s.upc t = .afcChk then
-      if s.list = [] then some { s with upc := upd s.upc t .idle, win := none, child := false }
-      else some { s with upc := upd s.upc t .afcGdLock, dflt := none }
+    if s.upc t = .afcUnlock ∧ s.mutex = some t then some { s with upc := upd s.upc t .afcCreate, mutex := none } else none
+  | .afcNone t =>
+    -- "Do nothing when call_rcu() has not been used"
+    if s.upc t = .afcCreate ∧ s.list = [] then some { s with upc := upd s.upc t .idle, win := none, child := false } else none
+  | .afcCreate t =>
+    -- default_call_rcu_data = NULL; get_default_call_rcu_data() (lock, call_rcu_data_init, unlock);
+    -- cpus_array_len_reset(); free(per_cpu_call_rcu_data); per_cpu_call_rcu_data = NULL; thread_call_rcu_data = NULL
+    if s.upc t = .afcCreate ∧ s.list ≠ [] ∧ s.mutex = none then
+      some { newHelper s with upc := upd s.upc t (.afcLoop s.list), dflt := some s.nextH,
+                              arr := false, percpu := fun _ => none, thr := upd s.thr t none }
     else none
-  | .afcGdLock t =>
-    if s.upc t = .afcGdLock ∧ s.mutex = none then some { s with upc := upd s.upc t .afcGdCreate, mutex := some t } else none
-  | .afcGdCreate t =>
-    if s.upc t = .afcGdCreate then
-      let s1 := newHelper s false
-      some { s1 with upc := upd s1.upc t .afcGdUnlock, dflt := some s.nextH }
-    else none
-  | .afcGdUnlock t =>
-    if s.upc t = .afcGdUnlock ∧ s.mutex = some t then some { s with upc := upd s.upc t .afcReset, mutex := none } else none
-  | .afcReset t =>
-    if s.upc t = .afcReset then
-      some { s with upc := upd s.upc t (.afcLoop s.list), arr := false, percpu := fun _ => none, thr := upd s.thr t none }
-    else none
-  | .afcNext t =>
+  | .afcSkip t =>
     match s.upc t with
-    | .afcLoop (h :: rem) =>
-      some { s with upc := upd s.upc t (if s.dflt = some h then .afcLoop rem else .afcStop h rem) }
+    | .afcLoop (h :: rem) => if s.dflt = some h then some { s with upc := upd s.upc t (.afcLoop rem) } else none
     | _ => none
-  | .afcStop t =>
-    match s.upc t with
-    | .afcStop h rem =>
-      -- `uatomic_store(&crdp->flags, URCU_CALL_RCU_STOPPED)`: every other flag bit is overwritten
-      some { s with upc := upd s.upc t (.afcFLock h rem), stopped := upd s.stopped h true, pause := upd s.pause h false,
-                    paused := upd s.paused h false, rt := upd s.rt h false }
-    | _ => none
-  | .afcFLock t =>
-    match s.upc t with
-    | .afcFLock h rem =>
-      -- `_call_rcu_data_free(h, 0)`: STOPPED is set, so no STOP / wait-for-STOPPED; lock
-      if s.stopped h = true ∧ s.mutex = none then some { s with upc := upd s.upc t (.afcFChk h rem), mutex := some t } else none
-    | _ => none
-  | .afcFChk t =>
-    match s.upc t with
-    | .afcFChk h rem =>
-      if s.queue h = [] then some { s with upc := upd s.upc t (.afcDel h rem) }
-      else if s.mutex = some t ∧ s.dflt ≠ none then some { s with upc := upd s.upc t (.afcFLock2 h rem), mutex := none }
-      else none
-    | _ => none
-  | .afcFLock2 t =>
-    match s.upc t with
-    | .afcFLock2 h rem => if s.mutex = none then some { s with upc := upd s.upc t (.afcSplice h rem), mutex := some t } else none
-    | _ => none
-  | .afcSplice t =>
+  | .afcDispose t =>
+    -- flags := STOPPED; _call_rcu_data_free(h, 0): (STOPPED set: no STOP / no wait) lock; leftovers spliced
+    -- onto the default helper's queue (+ wake); cds_list_del; unlock; NO pthread_join; free
     match s.upc t, s.dflt with
-    | .afcSplice h rem, some d =>
-      if d ≠ h then
-        some { s with upc := upd s.upc t (.afcWk d h rem),
+    | .afcLoop (h :: rem), some d =>
+      if d ≠ h ∧ s.mutex = none then
+        some { s with upc := upd s.upc t (.afcLoop rem), stopped := upd s.stopped h true,
+                      pause := upd s.pause h false, paused := upd s.paused h false,
                       queue := upd (upd s.queue d (s.queue d ++ s.queue h)) h [],
-                      loc := relocate s.loc (.queue h) (.queue d) }
+                      loc := relocate s.loc (.queue h) (.queue d),
+                      list := s.list.erase h, freed := upd s.freed h true }
       else none
     | _, _ => none
-  | .afcDel t =>
-    match s.upc t with
-    | .afcDel h rem =>
-      -- `cds_list_del(&crdp->list)`, unlock, NO pthread_join (flags = 0), `free(crdp)`
-      if s.mutex = some t then
-        some { s with upc := upd s.upc t (.afcLoop rem), list := s.list.erase h, mutex := none, freed := upd s.freed h true }
-      else none
-    | _ => none
   | .afcDone t =>
     match s.upc t with
     | .afcLoop [] => some { s with upc := upd s.upc t .idle, win := none, child := false }
     | _ => none
   -- ---------------------------------------------------------------- helper thread
   | .hStart h =>
-    if s.hpc h = .start ∧ s.rgl = none then some { s with hpc := upd s.hpc h .startReg, rgl := some (.h h) } else none
-  | .hStartDone h =>
-    if s.hpc h = .startReg ∧ s.rgl = some (.h h) then
-      some { s with hpc := upd s.hpc h (if s.rt h then .top else .dec0), rgl := none, registry := .h h :: s.registry }
-    else none
-  | .hDec0 h =>
-    if s.hpc h = .dec0 then some { s with hpc := upd s.hpc h .top, futex := upd s.futex h (s.futex h - 1) } else none
+    -- rcu_register_thread(); URCU_TLS(thread_call_rcu_data) = crdp; (futex) → loop
+    if s.hpc h = .start then some { s with hpc := upd s.hpc h .top, registry := .h h :: s.registry } else none
   | .hTop h =>
-    if s.hpc h = .top then some { s with hpc := upd s.hpc h (if s.pause h then .unreg1 else .splice) } else none
-  | .hUnreg1 h =>
-    if s.hpc h = .unreg1 ∧ s.rgl = none then some { s with hpc := upd s.hpc h .unreg2, rgl := some (.h h) } else none
-  | .hUnreg2 h =>
-    if s.hpc h = .unreg2 ∧ s.rgl = some (.h h) then
-      some { s with hpc := upd s.hpc h .setPaused, rgl := none, registry := s.registry.filter (· ≠ .h h) }
-    else none
+    if s.hpc h = .top then some { s with hpc := upd s.hpc h (if s.pause h then .unreg else .splice) } else none
+  | .hUnreg h =>
+    if s.hpc h = .unreg then some { s with hpc := upd s.hpc h .setPaused, registry := s.registry.filter (· ≠ .h h) } else none
   | .hSetPaused h =>
     if s.hpc h = .setPaused then some { s with hpc := upd s.hpc h .spin, paused := upd s.paused h true } else none
   | .hSpinExit h =>
     if s.hpc h = .spin ∧ s.pause h = false then some { s with hpc := upd s.hpc h .clrPaused } else none
   | .hClrPaused h =>
-    if s.hpc h = .clrPaused then some { s with hpc := upd s.hpc h .rereg1, paused := upd s.paused h false } else none
-  | .hRereg1 h =>
-    if s.hpc h = .rereg1 ∧ s.rgl = none then some { s with hpc := upd s.hpc h .rereg2, rgl := some (.h h) } else none
-  | .hRereg2 h =>
-    if s.hpc h = .rereg2 ∧ s.rgl = some (.h h) then
-      some { s with hpc := upd s.hpc h .splice, rgl := none, registry := .h h :: s.registry }
-    else none
+    if s.hpc h = .clrPaused then some { s with hpc := upd s.hpc h .rereg, paused := upd s.paused h false } else none
+  | .hRereg h =>
+    if s.hpc h = .rereg then some { s with hpc := upd s.hpc h .splice, registry := .h h :: s.registry } else none
   | .hSplice h =>
     if s.hpc h = .splice then
-      if s.queue h = [] then some { s with hpc := upd s.hpc h .stopchk }
+      if s.queue h = [] then some { s with hpc := upd s.hpc h .wait }
       else some { s with hpc := upd s.hpc h .g0, batch := upd s.batch h (s.queue h), queue := upd s.queue h [],
                          loc := relocate s.loc (.queue h) (.batch h) }
     else none
-  | .hGpLock h =>
-    if s.hpc h = .g0 ∧ s.gpl = none then some { s with hpc := upd s.hpc h .g1, gpl := some (.h h) } else none
+  | .hGpBegin h =>
+    if s.hpc h = .g0 ∧ s.gpl = none then
+      some { s with hpc := upd s.hpc h .g1, gpl := some (.h h), waitL := waitSet s none }
+    else none
   | .hGpSkip h =>
     if s.hpc h = .g0 then some { s with hpc := upd s.hpc h .inv } else none
-  | .hRgLock h =>
-    if s.rgl = none then
-      match s.hpc h with
-      | .g1 => some { s with hpc := upd s.hpc h .g2, rgl := some (.h h), waitL := waitSet s none }
-      | .g3 => some { s with hpc := upd s.hpc h .g2, rgl := some (.h h) }
-      | _ => none
-    else none
-  | .hRgUnlock h =>
-    if s.hpc h = .g2 ∧ s.rgl = some (.h h) then some { s with hpc := upd s.hpc h .g3, rgl := none } else none
-  | .hGpUnlock h =>
-    if s.hpc h = .g3 ∧ s.gpl = some (.h h) ∧ s.waitL = [] then some { s with hpc := upd s.hpc h .inv, gpl := none } else none
-  | .hRunBegin h cb =>
+  | .hGpEnd h =>
+    if s.hpc h = .g1 ∧ s.gpl = some (.h h) ∧ s.waitL = [] then some { s with hpc := upd s.hpc h .inv, gpl := none } else none
+  | .hInvoke h cb =>
+    -- `cb` must be the first callback of the batch (`__cds_wfcq_for_each_blocking_safe` order)
     if s.hpc h = .inv ∧ (s.batch h).head? = some cb then
-      some { s with hpc := upd s.hpc h .run, batch := upd s.batch h (s.batch h).tail, cur := upd s.cur h (some cb),
-                    loc := upd s.loc cb (.run h), invN := upd s.invN cb (s.invN cb + 1),
-                    invSince := upd s.invSince cb (s.invSince cb + 1) }
+      some { s with batch := upd s.batch h (s.batch h).tail, loc := upd s.loc cb .done,
+                    invN := upd s.invN cb (s.invN cb + 1), invSince := upd s.invSince cb (s.invSince cb + 1),
+                    bpend := match s.bar cb with
+                      | some b => upd s.bpend b ((s.bpend b).filter (· ≠ cb))
+                      | none => s.bpend }
     else none
-  | .hRunEnd h =>
-    match s.cur h with
-    | some cb =>
-      if s.hpc h = .run then
-        some { s with hpc := upd s.hpc h .inv, cur := upd s.cur h none, loc := upd s.loc cb .done,
-                      bpend := match s.bar cb with
-                        | some b => upd s.bpend b ((s.bpend b).erase cb)
-                        | none => s.bpend }
-      else none
-    | none => none
   | .hChain h id =>
-    -- the running callback calls call_rcu(): enqueue on the helper's own queue
-    if s.hpc h = .run ∧ s.reg id = false then
-      some { s with hpc := upd s.hpc h .runWk, reg := upd s.reg id true, loc := upd s.loc id (.queue h),
-                    queue := upd s.queue h (s.queue h ++ [id]) }
-    else none
-  | .hWake h =>
-    if s.hpc h = .runWk then
-      some { s with hpc := upd s.hpc h .run, futex := if wakes s h then upd s.futex h 0 else s.futex }
+    -- a running callback calls call_rcu(): enqueue on the helper's own queue
+    if s.hpc h = .inv ∧ s.reg id = false then
+      some { s with reg := upd s.reg id true, loc := upd s.loc id (.queue h), queue := upd s.queue h (s.queue h ++ [id]) }
     else none
   | .hInvDone h =>
-    if s.hpc h = .inv ∧ s.batch h = [] then some { s with hpc := upd s.hpc h .stopchk } else none
-  | .hStopChk h =>
-    if s.hpc h = .stopchk then some { s with hpc := upd s.hpc h (if s.rt h then .pollN else .emptychk) } else none
-  | .hEmptyChk h =>
-    if s.hpc h = .emptychk then some { s with hpc := upd s.hpc h (if s.queue h = [] then .waitLd else .pollN) } else none
-  | .hWaitLd h =>
-    if s.hpc h = .waitLd then some { s with hpc := upd s.hpc h (if s.futex h = -1 then .waitSys else .pollW) } else none
-  | .hWaitSys h o =>
-    if s.hpc h = .waitSys then
-      match o with
-      | .sleep => if s.futex h = -1 then some { s with hpc := upd s.hpc h .asleep } else none
-      | .eagain => if s.futex h ≠ -1 then some { s with hpc := upd s.hpc h .pollW } else none
-      | .eintr => some { s with hpc := upd s.hpc h .waitLd }
-      | .spurious => some { s with hpc := upd s.hpc h .waitLd }
-    else none
-  | .hSpurious h =>
-    if s.hpc h = .asleep then some { s with hpc := upd s.hpc h .waitLd } else none
-  | .hPollW h =>
-    if s.hpc h = .pollW then some { s with hpc := upd s.hpc h .dec } else none
-  | .hDec h =>
-    if s.hpc h = .dec then some { s with hpc := upd s.hpc h .top, futex := upd s.futex h (s.futex h - 1) } else none
-  | .hPollN h =>
-    if s.hpc h = .pollN then some { s with hpc := upd s.hpc h .top } else none
+    if s.hpc h = .inv ∧ s.batch h = [] then some { s with hpc := upd s.hpc h .wait } else none
+  | .hWait h =>
+    -- STOP check (never set here), offline, empty check, futex wait / poll, online
+    if s.hpc h = .wait then some { s with hpc := upd s.hpc h .top } else none
 
 inductive Reach (c : Cfg) : State → Prop
   | init : Reach c init
   | step {s s' l} : Reach c s → step c s l = some s' → Reach c s'
 
-/-- reachability inside one process from a given state (no further fork into a child: `forkChild`
-leaves the process; `forkParent` stays) -/
+/-- reachability inside one process from a given state (`forkChild` leaves the process) -/
 inductive ReachFrom (c : Cfg) (s0 : State) : State → Prop
   | refl : ReachFrom c s0 s0
   | step {s s' l} : ReachFrom c s0 s → (∀ t, l ≠ .forkChild t) → step c s l = some s' → ReachFrom c s0 s'
